@@ -894,7 +894,7 @@ pub fn run(ctx: &Ctx) -> i32 {
     let len = ctx.tier.pick(2usize, 3usize);
     let items = (alphabet().len() * 8 * fixed_sources().len()) as u64;
     reports.push(exhaustive_suite(ctx, "bounded_exhaustive_sequences", items, &move |i, acc| enum_item(len, i, acc)));
-    let cases = ctx.tier.pick(1_500_000u64, 12_000_000u64);
+    let cases = ctx.tier.pick(1_500_000u64, 25_000_000u64);
     reports.push(tape_suite(ctx, "random_sequences", cases, 700, &random_case));
     if ctx.tier == Tier::Thorough && reports.iter().all(|r| r.failure.is_none()) {
         let seeds: Vec<Vec<u8>> = generate_tapes(ctx.seed ^ 0xC14, 300, 700).iter().map(|t| t.iter().flat_map(|w| [(w >> 24) as u8, (w >> 16) as u8]).collect()).collect();
